@@ -49,6 +49,11 @@ def _job(task, sn=1, msgs=('started', 'succeeded')):
         {'op': 'msg', 'task': task, 'msg': m, 'sn': sn, 'sev': 'INFO'} for m in msgs]
 
 
+def _trig(*ids):
+    """`cylc trigger` (default flow) of pooled tasks that are not connected by trigger edges"""
+    return _cmd('force_trigger_tasks', tasks=list(ids), flow=[], flow_wait=False)
+
+
 _L = {'op': 'loop'}
 _STOP = _cmd('stop', mode='REQUEST(NOW)')
 _R = {'op': 'restart'}
@@ -74,6 +79,17 @@ _CORPUS = {
                            [_L] + _job('1/a', msgs=('started',)) + [_L, _STOP, _L, _R, _L, _L,
                                                                     {'op': 'msg', 'task': '1/a', 'msg': 'succeeded',
                                                                      'sn': 1, 'sev': 'INFO'}, _L, _L, _L]),
+    # manual triggers against a limit: runahead P0 keeps the cycle-2 instances in the pool unqueued; with 1/a
+    # preparing (queue q, limit 2, one slot left) ONE trigger of 2/a and 2/b may start only one of them, the other
+    # has to be queued; the already queued 1/c, triggered next, runs regardless of the limit
+    'trigger-two-one-slot': (_flow(_q('q', 2, ['a', 'b', 'c']), fcp=2, runahead=0),
+                             [_cmd('pause'), _L, _trig('1/a'), _L, _trig('2/a', '2/b'), _L, _trig('1/c'), _L,
+                              _cmd('resume')] + _job('1/a') + [_L, _L] + _job('2/a') + _job('2/b') + [_L, _L, _L]),
+    # two queues: `big` (limit 1) is full; a trigger of 2/c, which belongs to the unlimited default queue, starts it at
+    # once (it must not end up in `big`); a trigger of 2/b, a member of the full queue, queues it in `big`
+    'trigger-while-other-queue-full': (_flow(_q('big', 1, ['a', 'b']), fcp=2, runahead=0),
+                                       [_L, _trig('2/c'), _L, _trig('2/b'), _L] + _job('1/a') + _job('2/c') +
+                                       [_L, _L] + _job('1/b') + [_L, _L]),
 }
 
 
@@ -97,9 +113,11 @@ class C05S(SchedProp):
         'CylcModel.C05S.Inv_queue_step',
         'CylcModel.C05S.Inv_queue_partial',
         'CylcModel.C05S.Inv_queue_counterexample',
+        'CylcModel.C05S.trigger_respects_limit',
+        'CylcModel.C05S.trigger_keeps_invariants',
     ]
     statement_note = (
-        'proof over the Sched3Q model (Sched2 = scheduler core + hold / release / hold point / stop / pause / clean '
+        'proof over the Sched3QT model (Sched2 = scheduler core + hold / release / hold point / stop / pause / clean '
         'restart, extended with limited internal queues: IndepQueueManager push / release / remove, '
         'LimitedTaskQueue.release, count_active_tasks / release_queued_tasks with waiting_on_job_prep, pool in '
         'get_tasks() order), for every instance graph and every state / op list. Proved: FIFO with held tasks '
@@ -124,8 +142,18 @@ class C05S(SchedProp):
         'on every real trace unconditionally), every limited queue stays within its limit in every state of the run '
         '(Inv_queue_step per operation). Independence of the queues (each task name in exactly one queue) is a '
         'hypothesis here; it is the component-level half of C05 (membership_partition) and is checked on every real '
-        'run by the judge. Not in the model: manual trigger (push_task_if_limited), reload (queues rebuilt), flows')
-    technique = ('inductive invariants over op lists of a Lean scheduler model with limited queues (Sched3Q) + trace '
+        'run by the judge. Manual trigger (restricted to `cylc trigger`, default flow, of POOLED tasks that are pairwise '
+        'unconnected by trigger edges, i.e. every task is its own group and a group-start task; queue_or_trigger / '
+        'push_task_if_limited / waiting_on_job_prep = tasks_to_trigger_now / is_manual_submit ported): a trigger of a '
+        'task that is not queued leaves every limited queue at most at max(L, previous count) - it starts only if its '
+        'queue has room, else it is queued (trigger_respects_limit); the command keeps the run invariants, launches '
+        'nothing itself and only appends to / deletes from the deques (trigger_keeps_invariants; all run-level '
+        'theorems above cover the trigger op). NOT proved: that a triggered-while-queued task is the ONLY way over a '
+        'limit as a run-level statement (Inv_queue_partial excludes activating triggers through NoOobFrom; the judge '
+        'tracks the exemption on the real traces), and nothing about the state "active task sits in a queue" created '
+        'by finding queued-and-started (the model follows the code there through two probed flags). Not in the model: '
+        'group triggers with in-group prerequisites / of tasks outside the pool (C28), --flow options, reload, flows')
+    technique = ('inductive invariants over op lists of a Lean scheduler model with limited queues and manual triggers (Sched3QT) + trace '
                  'correspondence with the real Scheduler (queue contents and pool order observed) + a monitor judge on '
                  'the observed traces')
     trusted = ['the queue definitions (name, limit, members after family expansion and _make_indep) are read off the real '
@@ -137,22 +165,67 @@ class C05S(SchedProp):
             'several times belongs to the last queue) and, in 40 %, a limit 1-3 on the default queue, driven through the '
             'real Scheduler by a seeded adaptive schedule: kinds qc (every job completes), qa (failures, submit failures, '
             'duplicate / stale / out-of-order messages), cmdq / cmdqc (the same with hold / release - 60 % of the holds aim '
-            'at a task sitting in a queue - hold point, pause, stop point, stop + restart); compared after every '
+            'at a task sitting in a queue - hold point, pause, stop point, stop + restart), cmdqt / cmdqtc (manual triggers '
+            'against the limits: `cylc trigger` of 1-3 pooled, pairwise unconnected tasks - 60 % several waiting members of '
+            'ONE limited queue at once, preferably not yet queued, else any waiting tasks such as a member of a free queue '
+            'while another queue is full, 10 % tasks that already have a job - mixed with hold / release / hold point / '
+            'pause / resume, no restart); compared after every '
             'operation: the pool in get_tasks() order, every queue head first, the proxies waiting on job preparation, '
-            'plus everything the Sched2 correspondence compares; four hand-written histories run first; non-trivial = a '
+            'the manual-submit flags, plus everything the Sched2 correspondence compares; six hand-written histories and '
+            'the three finding witnesses run first; non-trivial = a '
             'limited queue held back a ready task; classes = (kind, limit-bound, held-in-queue, release-past-held, '
             'restart-with-queue, launch count)')
-    kinds = ('qc', 'qa', 'cmdq', 'cmdqc')
-    n_quick = 48
-    n_thorough = 600
+    kinds = ('qc', 'cmdqt', 'qa', 'cmdq', 'cmdqtc', 'cmdqc')
+    n_quick = 60
+    n_thorough = 720
+
+    def translate(self):
+        """Behaviour flags of the two places where a task that is already on its way to job submission can be
+        queued as well (finding queued-and-started), probed on the live TaskPool methods with mock objects."""
+        import collections
+        from unittest import mock
+        from cylc.flow.task_pool import TaskPool
+        # (1) queue_or_trigger on a proxy that waits on job preparation, its queue full: is it pushed?
+        pool = mock.MagicMock()
+        pool.count_active_tasks.return_value = (collections.Counter(), [])
+        pool.task_queue_mgr.push_task_if_limited.return_value = True
+        itask = mock.MagicMock()
+        itask.waiting_on_job_prep = True
+        itask.state.is_queued = False
+        TaskPool.queue_or_trigger(pool, itask)
+        guard1 = not pool.task_queue_mgr.push_task_if_limited.called
+        # (2) release_held_active_task on a manually triggered proxy that waits on job preparation: is it queued?
+        pool = mock.MagicMock()
+        itask = mock.MagicMock()
+        itask.waiting_on_job_prep = True
+        itask.is_manual_submit = True
+        itask.state.is_queued = False
+        itask.state.is_runahead = False
+        itask.is_ready_to_run.return_value = True
+        itask.state_reset.return_value = True
+        pool.queue_if_ready = lambda t: TaskPool.queue_if_ready(pool, t)
+        TaskPool.release_held_active_task(pool, itask)
+        guard2 = not pool.queue_task.called
+
+        def b(v):
+            return 'true' if v else 'false'
+        return {'Sched3QTCfg.lean': (
+            '/- generated by harness/props/c05s.py translate() from the live code - do not edit -/\n'
+            'namespace CylcModel.Sched3QT\n\n'
+            '/-- `TaskPool.queue_or_trigger` leaves a proxy that is waiting on job preparation alone (probed) -/\n'
+            f'def retriggerGuard : Bool := {b(guard1)}\n\n'
+            '/-- `TaskPool.release_held_active_task` does not queue a manually triggered proxy (probed) -/\n'
+            f'def releaseHeldGuard : Bool := {b(guard2)}\n\n'
+            'end CylcModel.Sched3QT\n')}
     unmodelled = [
         'job submission / platforms / remote init (stub job runner: real prep_submit_task_jobs, launch recorded, '
         'outcome delivered by explicit ops); with the stub a released task is prepared in the same main loop, so '
         'waiting_on_job_prep is never observed set at an operation boundary (the model carries the flag)',
         'the static instance graph and the queue definitions are read off the real TaskDef / TaskProxy / '
         'IndepQueueManager objects and are inputs of the model (C13-C16, component-level C05)',
-        'manual triggering (the only legitimate way over a limit: push_task_if_limited), reload (queues rebuilt, '
-        'adopt_tasks), several flows, xtriggers, clock-expiry, datetime cycling',
+        'group triggers beyond the restricted class (in-group prerequisites, tasks outside the pool, --flow), '
+        'manual tasks across a restart (ported from Sched3Trig, not exercised: the trigger kinds do not restart), '
+        'reload (queues rebuilt, adopt_tasks), several flows, xtriggers, clock-expiry, datetime cycling',
     ]
 
     def corpus(self):
@@ -183,6 +256,7 @@ class C05S(SchedProp):
         tags = [inp.get('kind', '?')]
         ops = inp.get('ops') or []
         bound = held_q = past_held = restart_q = False
+        trig = set()
         for k in range(1, len(obs)):
             b, a = obs[k - 1], obs[k]
             op = ops[k - 1] if k - 1 < len(ops) else {}
@@ -200,9 +274,26 @@ class C05S(SchedProp):
                             past_held = True
                 if op.get('op') == 'restart' and qb[2]:
                     restart_q = True
-        if not bound:
+            if op.get('op') == 'cmd' and op.get('name') == 'force_trigger_tasks':
+                bq = {(t['p'], t['n']): t['q'] for t in b['pool']}
+                aq = {(t['p'], t['n']): t['q'] for t in a['pool']}
+                for t in op['args'].get('tasks', []):
+                    p_, n_ = t.split('/')
+                    key = (int(p_), n_)
+                    if key in bq and key in aq:
+                        if not bq[key] and aq[key]:
+                            trig.add('trigger-queued-because-full')
+                        elif bq[key] and not aq[key]:
+                            trig.add('trigger-out-of-queue')
+                        elif [key[0], key[1]] in a.get('wjp', []) and [key[0], key[1]] not in b.get('wjp', []):
+                            trig.add('trigger-started')
+                if len(op['args'].get('tasks', [])) > 1:
+                    trig.add('multi-trigger')
+        if not bound and not trig:
             return None
-        tags.append('limit-bound')
+        if bound:
+            tags.append('limit-bound')
+        tags += sorted(trig)
         if held_q:
             tags.append('held-in-queue')
         if past_held:
